@@ -228,7 +228,7 @@ class PythonParserGenerator(IndentPrintMixin, NodeWalker):
                     exp: g.Model = opt
                     if isinstance(exp, g.Option):
                         exp = exp.exp
-                    self._gen_anon_block(exp, ctx=self.ctx, decor=f'{var}.option')
+                    self._gen_anon_block(exp, ctx=self.ctx, decor=f'{var}.option', defines=True)
         finally:
             # self.pop_ctx()
             self.prev_choice_number()
@@ -448,6 +448,7 @@ class PythonParserGenerator(IndentPrintMixin, NodeWalker):
         decor: str = '',
         echeck: bool = False,
         ctx: str | None = None,
+        defines: bool = False,
     ):
         ctx = ctx or self.ctx
         if echeck and () in exp.lookaheadlist:
@@ -462,6 +463,9 @@ class PythonParserGenerator(IndentPrintMixin, NodeWalker):
         else:
             self.print(f'def {ANON}() -> Any:')
         with self.indent():
+            if defines and not isinstance(exp, g.Sequence):
+                # NOTE: like Choice._parse(): the names of an option exist even if it matches nothing
+                self._gen_defines_declaration(exp)
             self.walk(exp)
 
     def _gen_decor(
